@@ -8,11 +8,13 @@ From ChitchatModel Require Import Base SMap Ids Bytes Params NodeState Stream De
 Section C05.
   Variable zc : bytes -> option bytes.
   Hypothesis zc_len : forall b c, zc b = Some c -> len c <= len b.
+  (* for both step relations: with (strict = true) or without (false) the exclusion of KF-1 deliveries *)
+  Variable strict : bool.
 
   (* In every reachable state, delivering ANY message ever sent — however old, duplicated or
      relayed — to any node leaves that node's own key-values, versions, statuses, max version and
      GC watermark exactly as they were; its heartbeat moves by the +1 of its own activity. *)
-  Theorem C05_own_namespace_untouched_by_gossip : forall g, reachable zc g ->
+  Theorem C05_own_namespace_untouched_by_gossip : forall g, reachable zc strict g ->
     forall a n m ord n' reply evs,
       node_at g a = Some n -> In m (g_sent g) ->
       process_message zc (w_now (g_w g)) n m ord = Ok (n', reply, evs) ->
@@ -20,7 +22,7 @@ Section C05.
         nm_get (self_id n) (cs_nodes (nd_cs n')) = Some (inc_heartbeat c) /\ self_id n' = self_id n.
   Proof.
     intros g Hr a n m ord n' reply evs Hn Hm Hrun c Hc.
-    destruct (reachable_inv zc zc_len g Hr) as [Hg _].
+    destruct (reachable_inv zc zc_len strict g Hr) as [Hg _].
     destruct (gi_nodes g Hg a n Hn) as [Hinv Hint Hown]. destruct (gi_sent g Hg m Hm) as [Hmi Hmw].
     destruct (process_message_truth zc zc_len (g_T g) _ n m ord n' reply evs (gi_wf g Hg) Hinv Hint Hown Hmi Hmw Hrun)
       as (_ & _ & _ & Hself & _ & Hsingle).
@@ -28,7 +30,7 @@ Section C05.
   Qed.
 
   (* consequently the owner is always the most advanced copy of its own state *)
-  Theorem C05_owner_is_most_advanced : forall g, reachable zc g ->
+  Theorem C05_owner_is_most_advanced : forall g, reachable zc strict g ->
     forall a n b nb c cown,
       node_at g a = Some n -> node_at g b = Some nb ->
       nm_get (self_id nb) (cs_nodes (nd_cs n)) = Some c ->
@@ -36,7 +38,7 @@ Section C05.
       c_max c <= c_max cown /\ c_gc c <= c_max cown /\ c_hb c <= c_hb cown.
   Proof.
     intros g Hr a n b nb c cown Hn Hnb Hc Hcown.
-    destruct (reachable_inv zc zc_len g Hr) as [Hg _].
+    destruct (reachable_inv zc zc_len strict g Hr) as [Hg _].
     destruct (gi_nodes g Hg a n Hn) as [_ Hint _]. destruct (Hint _ c Hc) as [_ B C D].
     destruct (gi_nodes g Hg b nb Hnb) as [_ _ (c0 & Hc0 & Hm0 & Hh0)].
     rewrite Hcown in Hc0. injection Hc0 as <-. rewrite Hm0, Hh0. auto.
